@@ -5,6 +5,9 @@ package c13
 
 import (
 	"fmt"
+	"os"
+	"sort"
+	"strconv"
 	"strings"
 	"time"
 
@@ -47,8 +50,10 @@ type scen struct {
 	cons  sigs.Account
 	plans map[string]planstypes.Plan
 
-	// model: how the latest version of the subscription obtained its (PlanIndex, PlanBlock)
-	origin string
+	// model: how the subscription obtained each (PlanIndex, PlanBlock) it references:
+	// buy / upgrade / renewal / advance-activation
+	origins map[string]string
+	origin  string // origin of the plan reference of the most recent version
 }
 
 func mkPlan(index string, price int64, totalCu uint64) planstypes.Plan {
@@ -97,13 +102,29 @@ func build() *scen {
 }
 
 func (s *scen) Ops() []string { return s.names }
-func (s *scen) Reset()        { s.w.Reset(); s.origin = "" }
+func (s *scen) Reset()        { s.w.Reset(); s.origin = ""; s.origins = map[string]string{} }
 func (s *scen) Fork() func() {
 	r := s.w.Fork()
 	o := s.origin
-	return func() { r(); s.origin = o }
+	saved := map[string]string{}
+	for k, v := range s.origins {
+		saved[k] = v
+	}
+	return func() { r(); s.origin = o; s.origins = saved }
 }
-func (s *scen) Hash() []byte { return append(s.w.StateHash(), []byte(s.origin)...) }
+func (s *scen) Hash() []byte {
+	keys := make([]string, 0, len(s.origins))
+	for k, v := range s.origins {
+		keys = append(keys, k+"="+v)
+	}
+	sort.Strings(keys)
+	return append(s.w.StateHash(), []byte(s.origin+"|"+strings.Join(keys, ";"))...)
+}
+
+func (s *scen) setOrigin(sub subscriptiontypes.Subscription, how string) {
+	s.origin = how
+	s.origins[fmt.Sprintf("%s@%d", sub.PlanIndex, sub.PlanBlock)] = how
+}
 
 func (s *scen) nextEpoch() uint64 {
 	w := s.w
@@ -138,13 +159,9 @@ func (s *scen) checkPlans() []ev.Violation {
 		if !seen[k] {
 			seen[k] = true
 			if _, ok := w.Keepers.Plans.FindPlan(w.Ctx, sub.PlanIndex, sub.PlanBlock); !ok {
-				org := s.origin
-				if blk == cur && blk != s.nextEpoch() {
-					// the version in force now may be older than the latest one
-					org = "current-version"
-					if l, ok2 := s.latest(); ok2 && l.PlanIndex == sub.PlanIndex && l.PlanBlock == sub.PlanBlock {
-						org = s.origin
-					}
+				org := s.origins[k]
+				if org == "" {
+					org = "unknown"
 				}
 				out = append(out, viol("live-sub-plan-unfindable:"+org, fmt.Sprintf("at block %d the live subscription (version in force at %d, DurationLeft=%d) references plan %s which FindPlan no longer finds; the reference was obtained by: %s", cur, blk, sub.DurationLeft, k, org)))
 			}
@@ -232,9 +249,9 @@ func (s *scen) Apply(op int) bfs.Step {
 			// origin bookkeeping for month expiries
 			if l, ok := s.latest(); ok && hadBefore && (l.PlanIndex != before.PlanIndex || l.PlanBlock != before.PlanBlock) {
 				if before.FutureSubscription != nil {
-					s.origin = "advance-activation"
+					s.setOrigin(l, "advance-activation")
 				} else {
-					s.origin = "renewal"
+					s.setOrigin(l, "renewal")
 				}
 				before = l
 			} else if !ok {
@@ -334,10 +351,10 @@ func (s *scen) Apply(op int) bfs.Step {
 		after, _ := s.latest()
 		switch {
 		case !hadBefore:
-			s.origin = "buy"
+			s.setOrigin(after, "buy")
 			obs = "buy-new"
 		case after.PlanIndex != before.PlanIndex || after.PlanBlock != before.PlanBlock:
-			s.origin = "upgrade"
+			s.setOrigin(after, "upgrade")
 			obs = "buy-upgrade"
 		default:
 			obs = "buy-extend"
@@ -361,6 +378,15 @@ func dedup(v []ev.Violation) []ev.Violation {
 	return out
 }
 
+// deadlineScale: VERIF_DEADLINE_SCALE=<n> stretches the internal deadlines (development aid for measuring
+// the full bound on a loaded machine); the default is 1.
+func deadlineScale(d time.Duration) time.Duration {
+	if n, err := strconv.Atoi(os.Getenv("VERIF_DEADLINE_SCALE")); err == nil && n > 1 {
+		return d * time.Duration(n)
+	}
+	return d
+}
+
 func firstLine(s string) string {
 	if i := strings.IndexByte(s, '\n'); i >= 0 {
 		return s[:i]
@@ -377,7 +403,7 @@ func init() {
 		if ev.Tier() == "thorough" {
 			depth, deadline = 7, 14*time.Minute
 		}
-		cfg := bfs.Config{Scenario: "c13", MaxDepth: depth, Deadline: deadline}
+		cfg := bfs.Config{Scenario: "c13", MaxDepth: depth, Deadline: deadlineScale(deadline)}
 		st := bfs.Explore(cfg, run)
 		bfs.Report(run, "", cfg, st)
 		run.Set("exhaustive", st.Exhaustive)
